@@ -51,6 +51,8 @@ pub struct HistProfile {
     pub observe: u32,
     /// valid unbind / re-bind of the story's externals
     pub binds: u32,
+    /// choices also by raw index (possibly out of range, possibly while the story can continue)
+    pub raw_choose: bool,
     pub max_ops: usize,
 }
 
@@ -69,6 +71,7 @@ impl Default for HistProfile {
             eval: 0,
             observe: 0,
             binds: 0,
+            raw_choose: false,
             max_ops: 14,
         }
     }
@@ -89,6 +92,7 @@ impl HistProfile {
             eval: 4,
             observe: 4,
             binds: 0,
+            raw_choose: false,
             max_ops: 16,
         }
     }
@@ -137,6 +141,7 @@ pub fn decode_history(tape: &[u16], meta: &Meta, hp: &HistProfile) -> Vec<HostOp
         }
         let op = match kind {
             0 => HostOp::Continue,
+            1 if hp.raw_choose && t.chance(1, 4) => HostOp::Choose(t.pick(8)),
             1 => HostOp::ChooseMod(t.pick(6)),
             2 => HostOp::ContinueMax,
             3 => HostOp::Save,
